@@ -248,3 +248,59 @@ SUBCHANNEL_Q = Fmt("formatted Q sub-channel", 16, {
     "c": B(0, 7, 4), "adr": B(0, 3, 0), "track-number": N(1, 1), "index-number": N(2, 1), "min": N(3, 1), "sec": N(4, 1), "frame": N(5, 1),
     "zero": N(6, 1), "amin": N(7, 1), "asec": N(8, 1), "aframe": N(9, 1), "crc": N(10, 2), "p": B(15, 7),
 })
+
+# ------------------------------------------------------------------------------------------------ PERSISTENT RESERVE OUT (SPC-4 6.14)
+PROUT_BASIC = Fmt("PR OUT basic parameter list", 24, {
+    "reservation_key": N(0, 8), "service_action_reservation_key": N(8, 8),
+    "spec_i_pt": B(20, 3), "all_tg_pt": B(20, 2), "aptpl": B(20, 0),
+})
+PROUT_REGISTER_AND_MOVE = Fmt("PR OUT REGISTER AND MOVE parameter list (fixed part)", 24, {
+    "reservation_key": N(0, 8), "service_action_reservation_key": N(8, 8),
+    "unreg": B(17, 1), "aptpl": B(17, 0), "relative_target_port_id": N(18, 2),
+})
+PROUT_SA = {"REGISTER": 0, "RESERVE": 1, "RELEASE": 2, "CLEAR": 3, "PREEMPT": 4, "PREEMPT_AND_ABORT": 5,
+            "REGISTER_AND_IGNORE_EXISTING_KEY": 6, "REGISTER_AND_MOVE": 7}
+
+# ------------------------------------------------------------------------------------------------ EXTENDED COPY (SPC-4 6.3 / 6.4)
+XCOPY_LID1_HEADER = Fmt("EXTENDED COPY(LID1) parameter list header", 16, {
+    "list_identifier": N(0, 1), "sequential_striped": B(1, 5), "nrcr": B(1, 4), "priority": B(1, 2, 0),
+})
+XCOPY_LID1_LENGTHS = {"targets": N(2, 2), "segments": N(8, 4), "inline": N(12, 4)}
+XCOPY_LID4_HEADER = Fmt("EXTENDED COPY(LID4) parameter list header", 48, {
+    "sequential_striped": B(1, 5), "list_id_usage": B(1, 4, 3), "priority": B(1, 2, 0),
+    "g_sense": B(15, 1), "immed": B(15, 0), "list_identifier": N(20, 4),
+}, const={N(0, 1): 0x01, N(2, 2): 0x0020, N(16, 1): 0xFF})
+XCOPY_LID4_LENGTHS = {"targets": N(42, 2), "segments": N(44, 2), "inline": N(46, 2)}
+# identification descriptor CSCD / target descriptor (type E4h), 32 bytes
+XCOPY_CSCD_E4 = Fmt("identification descriptor CSCD descriptor", 32, {
+    "lu_id_type": B(1, 7, 6), "peripheral_device_type": B(1, 4, 0), "relative_initiator_port_identifier": N(2, 2),
+    "code_set": B(4, 3, 0), "association": B(5, 5, 4), "designator_type": B(5, 3, 0), "designator_length": N(7, 1),
+    "designator": Blob(8, 20),
+    "pad": B(28, 2), "fixed": B(28, 0), "block_length": N(29, 3),
+}, const={N(0, 1): 0xE4})
+XCOPY_BLOCK_TYPES = (0x00, 0x04, 0x05, 0x07, 0x0E)
+
+
+def xcopy_segment(lid4):
+    src, dst = ("source_cscd_descriptor_id", "destination_cscd_descriptor_id") if lid4 else ("source_target_descriptor_id", "destination_target_descriptor_id")
+    b2s = lambda name: Fmt(name, 24, {
+        "descriptor_type_code": N(0, 1), "cat": B(1, 0), src: N(4, 2), dst: N(6, 2), "stream_device_transfer_length": N(9, 3),
+        "block_device_number_of_blocks": N(14, 2), "block_device_logical_block_address": N(16, 8)}, const={N(2, 2): 0x0014})
+    b2b_fields = {"descriptor_type_code": N(0, 1), "cat": B(1, 0), "dc": B(1, 1), src: N(4, 2), dst: N(6, 2),
+                  "block_device_number_of_blocks": N(10, 2), "source_block_device_logical_block_address": N(12, 8),
+                  "destination_block_device_logical_block_address": N(20, 8)}
+    if lid4:
+        b2b_fields["fco"] = B(1, 2)
+    return {
+        0x00: b2s("block -> stream segment descriptor"), 0x0B: b2s("block -> stream + application client"),
+        0x01: b2s("stream -> block segment descriptor"), 0x0C: b2s("stream -> block + application client"),
+        0x02: Fmt("block -> block segment descriptor", 28, dict(b2b_fields), const={N(2, 2): 0x0018}),
+        0x0D: Fmt("block -> block + application client", 28, dict(b2b_fields), const={N(2, 2): 0x0018}),
+    }
+
+
+XCOPY_SEGMENT_NAMES = {
+    0x00: ("block -> stream", "Copy from block device to stream device"),
+    0x01: ("stream -> block", "Copy from stream device to block device"),
+    0x02: ("block -> block", "Copy from block device to block device"),
+}
